@@ -1,77 +1,17 @@
-(* C11/Refuted.v -- full statements the faithful model (= the real code) violates: machine-checked
-   witnesses of the known findings, each replayed on the real implementation by the harness
-   (tools/props/C11.findings.json). *)
+(* C11/Refuted.v
+   (a) a full statement the current model (= the current code) still violates: the pick counter beyond the
+       stated range (needs 2^63 Picks; outside the property's quantifier);
+   (b) regression facts about the three defects of tokenAwareHostPolicy.Pick that were repaired in /repo
+       (tools/props/C11.findings.json, status fixed): the PRE-FIX generator, kept here as a separate
+       definition, shows the defect on the recorded witness; the current model does not. *)
 From GocqlV Require Import Lib.Base C11.Model C11.Spec C11.Proofs1 C11.Proofs2 C11.Proofs3 C11.Proofs4 C11.Proofs5.
 
 Definition all_up : Z -> bool := fun _ => true.
-
-(* ---- F-C11-1: ta-tier-gap-remote-replica-late ---------------------------------------------------------
-   rack-aware (local dc 1, rack 1) + NonLocalReplicasFallback; L1, L2 local; R1, R2 in data centre 2; all
-   up; replicas of the token [L1; R1]: no replica in tier 1, one in tier 2.  The generator offers
-   [L1; L2; R1; R2]: the remote replica R1 comes after the non-replica L2.  The specification (and
-   C11_ta_offers, whose [no_gap] hypothesis excludes exactly this) demands [L1; R1; L2; R2]. *)
-Definition gL1 := mkHost 1 1 1 1.
-Definition gL2 := mkHost 2 2 1 1.
-Definition gR1 := mkHost 3 3 2 1.
-Definition gR2 := mkHost 4 4 2 1.
-Definition gap_policy : policy := mkPolicy (PRack 1 1) [[gL1; gL2]; []; [gR1; gR2]] 0.
-
-Theorem ta_tier_gap_refuted :
-  exists st',
-    ctr_in_range gap_policy /\ NoDup (map hid [gL1; gR1]) /\ NoDup (map hid (concat (plists gap_policy))) /\
-    yields (ta_step true all_up) (ta_pick (PRack 1 1) true (map Some [gL1; gR1]), gap_policy) [gL1; gL2; gR1; gR2] st' /\
-    spec_ta all_up (host_tier (PRack 1 1)) 2 true [gL1; gR1] (plists gap_policy) (Z.to_nat (pctr gap_policy + 2))
-      = [gL1; gR1; gL2; gR2] /\
-    ~ no_gap (far_tiers (PRack 1 1) [gL1; gR1]).
-Proof.
-  eexists. split; [split; vm_compute; [discriminate | reflexivity]|].
-  split; [repeat constructor; simpl; intuition discriminate|].
-  split; [repeat constructor; simpl; intuition discriminate|].
-  split; [|split; [vm_compute; reflexivity|]].
-  - eapply yields_cons; [vm_compute; reflexivity|]. eapply yields_cons; [vm_compute; reflexivity|].
-    eapply yields_cons; [vm_compute; reflexivity|]. eapply yields_cons; [vm_compute; reflexivity|].
-    eapply yields_nil. vm_compute. reflexivity.
-  - intros H. specialize (H 0%nat 1%nat (Nat.lt_0_succ 0) eq_refl). vm_compute in H. discriminate.
-Qed.
-
-(* ---- ta-duplicate-replica-offered-twice ------------------------------------------------------------------
-   (consequence of C10's nts-duplicate-replica)  replicas [A; A] over plain round-robin: A is offered twice. *)
 Definition dA := mkHost 1 1 1 1.
 Definition dB := mkHost 2 2 1 1.
 Definition dC := mkHost 3 3 1 1.
-Definition dup_policy : policy := mkPolicy PRR [[dA; dB; dC]] 0.
 
-Theorem ta_duplicate_replica_refuted :
-  exists st',
-    ctr_in_range dup_policy /\ NoDup (map hid (concat (plists dup_policy))) /\
-    yields (ta_step false all_up) (ta_pick PRR false (map Some [dA; dA]), dup_policy) [dA; dA; dC; dB] st' /\
-    ~ no_host_twice [dA; dA; dC; dB].
-Proof.
-  eexists. split; [split; vm_compute; [discriminate | reflexivity]|].
-  split; [repeat constructor; simpl; intuition discriminate|]. split.
-  - eapply yields_cons; [vm_compute; reflexivity|]. eapply yields_cons; [vm_compute; reflexivity|].
-    eapply yields_cons; [vm_compute; reflexivity|]. eapply yields_cons; [vm_compute; reflexivity|].
-    eapply yields_nil. vm_compute. reflexivity.
-  - unfold no_host_twice. simpl. intros H. inversion H as [|? ? Hx _]; subst. apply Hx. left. reflexivity.
-Qed.
-
-(* ---- ta-empty-ring-nil-deref ------------------------------------------------------------------------------
-   token-aware over DC-aware: the ring has no token, Pick builds replicas = [nil]; the first call panics.
-   (C11_no_panic_any_interleaving excludes this through [label_ok].) *)
-Theorem ta_empty_ring_panic_refuted :
-  let c := mkCfg (PDC 1) true false false in
-  exists s, run c (sys_init c) [LOp (OAdd dA); LSetState 1 node_up; LPick 0 (QKey None None []); LNext 0]
-            = Some (s, [(0%nat, Panic)]).
-Proof. cbn zeta. eexists. vm_compute. reflexivity. Qed.
-
-(* the same history over the plain round-robin policy is harmless: the nil entry is skipped *)
-Example ta_empty_ring_rr_ok :
-  let c := mkCfg PRR true false false in
-  exists s, run c (sys_init c) [LOp (OAdd dA); LSetState 1 node_up; LPick 0 (QKey None None []); LNext 0; LNext 0]
-            = Some (s, [(0%nat, Offer dA); (0%nat, Nil)]).
-Proof. cbn zeta. eexists. vm_compute. reflexivity. Qed.
-
-(* ---- outside the stated quantifier (needs 2^63 Picks): the counter bound in the theorems is needed ----------
+(* ---- (a) the counter bound in the theorems is needed ------------------------------------------------------
    int(uint64 counter) is negative from 2^63 on, and shift+currentlyObserved wraps just below it. *)
 Theorem rr_counter_wrap_panic_refuted :
   let c := mkCfg PRR false false false in
@@ -79,4 +19,102 @@ Theorem rr_counter_wrap_panic_refuted :
               [LOp (OAdd dA); LOp (OAdd dB); LOp (OAdd dC); LSetState 1 node_up; LSetState 2 node_up; LSetState 3 node_up;
                LSetCtr (2 ^ 63 - 3); LPick 0 QFallback; LNext 0; LNext 0]
             = Some (s, [(0%nat, Offer dB); (0%nat, Panic)]).
+Proof. cbn zeta. eexists. vm_compute. reflexivity. Qed.
+
+(* ---- (b) the generator before the repairs ------------------------------------------------------------------ *)
+Module Old.
+  (* first loop: no look at `used` *)
+  Fixpoint phase1 (k : pkind) (nlrf : bool) (up : Z -> bool) (reps : list host) (remote : list (list host)) : p1_res :=
+    match reps with
+    | [] => P1Done remote
+    | h :: rest =>
+        match host_tier k h with
+        | O => if up (hid h) then P1Found h rest remote else phase1 k nlrf up rest remote
+        | S t => phase1 k nlrf up rest (if nlrf then app_at remote t h else remote)
+        end
+    end.
+
+  (* second loop: `for j < len(remote) && k < len(remote[j])` - an empty tier ends it *)
+  Fixpoint p2_inner (up : Z -> bool) (rest : list (list host)) (next_tier : p2_res) (cur : list host) : p2_res :=
+    match cur with
+    | [] => P2Done ([] :: rest)
+    | h :: cur' =>
+        match cur' with
+        | [] => if up (hid h) then P2Found h rest else next_tier
+        | _ :: _ => if up (hid h) then P2Found h (cur' :: rest) else p2_inner up rest next_tier cur'
+        end
+    end.
+  Fixpoint phase2 (up : Z -> bool) (rem : list (list host)) : p2_res :=
+    match rem with
+    | [] => P2Done []
+    | cur :: rest => p2_inner up rest (phase2 up rest) cur
+    end.
+
+  Definition next (nlrf : bool) (up : Z -> bool) (p : policy) (it : ta_iter) : outcome * ta_iter * policy :=
+    match phase1 (pk p) nlrf up (ti_reps it) (ti_remote it) with
+    | P1Found h rest remote => (Offer h, mkTA rest remote (hid h :: ti_used it) (ti_fb it), p)
+    | P1Done remote =>
+        match (if nlrf then phase2 up remote else P2Done remote) with
+        | P2Found h rem => (Offer h, mkTA [] rem (hid h :: ti_used it) (ti_fb it), p)
+        | P2Done rem =>
+            let '(fb, p') := match ti_fb it with Some fb => (fb, p) | None => rr_pick p end in
+            let '(o, fb', used') := ta_phase3 up (ti_used it) fb (S (rr_size fb)) in
+            (o, mkTA [] rem used' (Some fb'), p')
+        end
+    end.
+  Definition step (nlrf : bool) (up : Z -> bool) (st : ta_iter * policy) : outcome * (ta_iter * policy) :=
+    let '(o, it', p') := next nlrf up (snd st) (fst st) in (o, (it', p')).
+End Old.
+
+(* fixed: ta-tier-gap-remote-replica-late.  rack-aware (dc 1, rack 1) + NonLocalReplicasFallback; L1, L2 local,
+   R1, R2 in data centre 2, all up; replicas [L1; R1] (none in tier 1, one in tier 2). *)
+Definition gL1 := mkHost 1 1 1 1.
+Definition gL2 := mkHost 2 2 1 1.
+Definition gR1 := mkHost 3 3 2 1.
+Definition gR2 := mkHost 4 4 2 1.
+Definition gap_policy : policy := mkPolicy (PRack 1 1) [[gL1; gL2]; []; [gR1; gR2]] 0.
+
+Example ta_tier_gap_before_fix :
+  exists st', yields (Old.step true all_up) (ta_pick (PRack 1 1) true [gL1; gR1], gap_policy) [gL1; gL2; gR1; gR2] st'.
+Proof.
+  eexists. eapply yields_cons; [vm_compute; reflexivity|]. eapply yields_cons; [vm_compute; reflexivity|].
+  eapply yields_cons; [vm_compute; reflexivity|]. eapply yields_cons; [vm_compute; reflexivity|].
+  eapply yields_nil. vm_compute. reflexivity.
+Qed.
+
+Example ta_tier_gap_after_fix :
+  exists st', yields (ta_step true all_up) (ta_pick (PRack 1 1) true [gL1; gR1], gap_policy) [gL1; gR1; gL2; gR2] st'
+  /\ spec_ta all_up (host_tier (PRack 1 1)) 2 true [gL1; gR1] (plists gap_policy) (Z.to_nat (pctr gap_policy + 2))
+     = [gL1; gR1; gL2; gR2].
+Proof.
+  eexists. split; [|vm_compute; reflexivity].
+  eapply yields_cons; [vm_compute; reflexivity|]. eapply yields_cons; [vm_compute; reflexivity|].
+  eapply yields_cons; [vm_compute; reflexivity|]. eapply yields_cons; [vm_compute; reflexivity|].
+  eapply yields_nil. vm_compute. reflexivity.
+Qed.
+
+(* fixed: ta-duplicate-replica-offered-twice.  replicas [A; A] over plain round-robin. *)
+Definition dup_policy : policy := mkPolicy PRR [[dA; dB; dC]] 0.
+
+Example ta_duplicate_replica_before_fix :
+  exists st', yields (Old.step false all_up) (ta_pick PRR false [dA; dA], dup_policy) [dA; dA; dC; dB] st'.
+Proof.
+  eexists. eapply yields_cons; [vm_compute; reflexivity|]. eapply yields_cons; [vm_compute; reflexivity|].
+  eapply yields_cons; [vm_compute; reflexivity|]. eapply yields_cons; [vm_compute; reflexivity|].
+  eapply yields_nil. vm_compute. reflexivity.
+Qed.
+
+Example ta_duplicate_replica_after_fix :
+  exists st', yields (ta_step false all_up) (ta_pick PRR false [dA; dA], dup_policy) [dA; dC; dB] st'.
+Proof.
+  eexists. eapply yields_cons; [vm_compute; reflexivity|]. eapply yields_cons; [vm_compute; reflexivity|].
+  eapply yields_cons; [vm_compute; reflexivity|]. eapply yields_nil. vm_compute. reflexivity.
+Qed.
+
+(* fixed: ta-empty-ring-nil-deref.  A ring without tokens: Pick now hands out the fallback's generator
+   (before: replicas = [nil], nil dereference in the first call over a DC-/rack-aware fallback). *)
+Example ta_empty_ring_after_fix :
+  let c := mkCfg (PDC 1) true false false in
+  exists s, run c (sys_init c) [LOp (OAdd dA); LSetState 1 node_up; LPick 0 (QKey None None []); LNext 0; LNext 0]
+            = Some (s, [(0%nat, Offer dA); (0%nat, Nil)]).
 Proof. cbn zeta. eexists. vm_compute. reflexivity. Qed.
